@@ -100,10 +100,21 @@ func tables(repo string, out *Out) {
 		var errRows [][]string
 		var ifConds []string
 		exitAppended := ""
+		// variables holding the result of sc.Status(g) (`outcome := sc.Status(g)`): a switch on one of them is
+		// the handler selection just like a switch on the call itself
+		statusVars := map[string]bool{}
+		ast.Inspect(fd.Body, func(n ast.Node) bool {
+			if a, ok := n.(*ast.AssignStmt); ok && len(a.Lhs) == 1 && len(a.Rhs) == 1 {
+				if id, ok := a.Lhs[0].(*ast.Ident); ok && strings.Contains(src(a.Rhs[0]), "Status(") {
+					statusVars[id.Name] = true
+				}
+			}
+			return true
+		})
 		ast.Inspect(fd.Body, func(n ast.Node) bool {
 			switch s := n.(type) {
 			case *ast.SwitchStmt:
-				if s.Tag != nil && strings.Contains(src(s.Tag), "Status(") {
+				if s.Tag != nil && (strings.Contains(src(s.Tag), "Status(") || statusVars[src(s.Tag)]) {
 					for _, c := range s.Body.List {
 						cc := c.(*ast.CaseClause)
 						lab := "default"
